@@ -114,7 +114,8 @@ def run(C, R):
                 shared_api = []
                 for f in methods:
                     t0 = f['locals'][1]['ty'] if f['arg_count'] >= 1 else None
-                    if t0 and t0.get('k') == 'ref' and not t0['mut']:
+                    # (methods that take `&self` - a reference to the guard itself, not to something else)
+                    if t0 and t0.get('k') == 'ref' and not t0['mut'] and (t0.get('ty') or {}).get('path') == GUARD:
                         shared_api.append(f)
                 extra = [f['path'] for f in shared_api
                          if not (f.get('impl_trait') or '').endswith(('ops::Deref', 'fmt::Debug'))]
